@@ -129,6 +129,37 @@ fn main() {
             // failures labelled for another property (streams are shared between checks) are that
             // check's business
             let mut cases = cases;
+            // every driver check also runs its driver's rows of the notification matrix (C05 (iv): suppression
+            // words of all queues of the device set independently before each single-chain operation)
+            let mine: &[&str] = match prop.as_str() {
+                "C14" => &["blk"],
+                "C15" => &["console"],
+                "C16" => &["netraw", "net"],
+                "C17" | "C18" => &["socket"],
+                "C20" => &["gpu", "rng", "rtc", "p9"],
+                _ => &[],
+            };
+            if !mine.is_empty() {
+                let mut m = c05_drivers::run_cases(&ctx);
+                m.retain(|c| c.tags.iter().any(|t| mine.contains(&t.as_str())));
+                for c in m.iter_mut() {
+                    c.oracle_failures.retain(|f| f.starts_with("[C05] lost notification: "));
+                    c.id = format!("{}-via-{}", prop, c.id);
+                    c.tag("notification-matrix");
+                }
+                cases.extend(m);
+            }
+            // …except that a lost notification on a driver's queue is also that driver's failure: the
+            // request (frame, buffer, packet) it made available never reaches a device that waits to be told
+            if matches!(prop.as_str(), "C14" | "C15" | "C16" | "C17" | "C18" | "C19" | "C20") {
+                for c in cases.iter_mut() {
+                    for f in c.oracle_failures.iter_mut() {
+                        if let Some(rest) = f.strip_prefix("[C05] lost notification: ") {
+                            *f = format!("made available but never announced to a device that asked to be notified (it never reaches the device): {}", rest);
+                        }
+                    }
+                }
+            }
             for c in cases.iter_mut() {
                 c.oracle_failures.retain(|f| {
                     let b = f.as_bytes();
